@@ -33,11 +33,26 @@ SCHED_RULE = (
 )
 
 
+_LATE: dict[int, type] = {}
+
+
+def late_error(k: int) -> type:
+    """A PynencError subclass defined on first use - i.e. possibly after failures have already been read back in this process
+    (a lazily imported task module or plug-in does that)."""
+    from pynenc.exceptions import PynencError
+
+    if k not in _LATE:
+        _LATE[k] = type(f"LateDefinedError{k}", (PynencError,), {"__module__": __name__})
+    return _LATE[k]
+
+
 def exc_strategy():
     from hypothesis import strategies as st
     from pynenc.exceptions import RetryError
 
-    return st.builds(lambda cls, args: cls(*args), st.sampled_from([ValueError, KeyError, RuntimeError, ZeroDivisionError, T.AppError, T.OtherError, RetryError]), V.exc_args)
+    fixed = st.sampled_from([ValueError, KeyError, RuntimeError, ZeroDivisionError, T.AppError, T.OtherError, RetryError])
+    late = st.integers(0, 5).map(late_error)
+    return st.builds(lambda cls, args: cls(*args), st.one_of(fixed, fixed, late), V.exc_args)
 
 
 def values_shard(serializer: str, kind: str, seed: int, examples: int, known: list[str]) -> dict:
